@@ -8,8 +8,8 @@ open GHEVerif
 structure MonthOK (y : Int) (r : MonthRec) (ipf : Bool) (i : Int) : Prop where
   peaks_nonneg : 0 ≤ r.pcl ∧ 0 ≤ r.phl
   durs_nonneg : 0 ≤ r.dcl ∧ 0 ≤ r.dhl
-  /-- the averaging period is not empty (the design's `dur_cl + dur_hl < 24·monthdays`) -/
-  room : ipf = true → r.dcl + r.dhl ≠ 24 * (mdays y i : Rat)
+  /-- the averaging period (month minus emitted pulses) is not empty -/
+  room : ipf = true → pulseHours r ≠ 24 * (mdays y i : Rat)
   /-- both pulses on one day: neither `first_hour_*_peak` is clamped to `1e-6` -/
   noclamp : ipf = true → r.dayc = r.dayh → 0 < r.pcl → 0 < r.phl →
     r.dcl ≤ 2 * noonOf (1 + lmh y (i - 1)) r.dayc ∧ r.dhl ≤ 2 * noonOf (1 + lmh y (i - 1)) r.dayh
@@ -20,18 +20,12 @@ def rateOf (y : Int) (r : MonthRec) (ipf : Bool) (i : Int) : Rat :=
   | .ok v => v
   | .error _ => 0
 
-/-- Energy a month carries beyond its net load: the rate times the durations of retained
-    directions that have no pulse. -/
-def corr (y : Int) (r : MonthRec) (ipf : Bool) (i : Int) : Rat :=
-  if ipf = true then rateOf y r ipf i * zeroPeakDur r else 0
-
 theorem month_energy_ok (y : Int) (r : MonthRec) (ipf : Bool) (i : Int) (hi : 1 ≤ i) (h : MonthOK y r ipf i) :
     ∃ segs, emitMonth y r ipf i = .ok segs ∧
-      integral (lmh y (i - 1) : Int) segs = r.cl - r.hl + corr y r ipf i ∧
+      integral (lmh y (i - 1) : Int) segs = r.cl - r.hl ∧
       lastHour (lmh y (i - 1) : Int) segs = (lmh y i : Int) := by
-  obtain ⟨rate, segs, h1, h2, h3, h4⟩ := month_energy_core y r ipf i hi h.peaks_nonneg h.durs_nonneg h.room h.noclamp
-  refine ⟨segs, h2, ?_, h4⟩
-  rw [h3]; unfold corr rateOf; rw [h1]
+  obtain ⟨rate, segs, _, h2, h3, h4⟩ := month_energy_core y r ipf i hi h.peaks_nonneg h.durs_nonneg h.room h.noclamp
+  exact ⟨segs, h2, h3, h4⟩
 
 theorem lmh_zero (y : Int) : lmh y 0 = 0 := by simp [lmh, cumDays_zero]
 
@@ -44,25 +38,25 @@ theorem horizon_core (y : Int) (base : List MonthRec) (hlen : base.length = 13) 
       seq = [((0 : Rat), (0 : Rat)), ((0 : Rat), ((lmh y (start - 1) : Int) : Rat))] ++
         ((pyRange start (end_ + 1)).map (segsOf y base start end_)).flatten ∧
       integral 0 seq = ((pyRange start (end_ + 1)).map (fun i =>
-        (recAt base i).cl - (recAt base i).hl + corr y (recAt base i) (ipfFlag start end_ i) i)).sum ∧
+        (recAt base i).cl - (recAt base i).hl)).sum ∧
       lastHour 0 seq = (lmh y end_ : Int) := by
   have hm : ∀ i, start ≤ i → i ≤ end_ →
       emitMonth y (recAt base i) (ipfFlag start end_ i) i = .ok (segsOf y base start end_ i) ∧
       integral (lmh y (i - 1) : Int) (segsOf y base start end_ i)
-        = (recAt base i).cl - (recAt base i).hl + corr y (recAt base i) (ipfFlag start end_ i) i ∧
+        = (recAt base i).cl - (recAt base i).hl ∧
       lastHour (lmh y (i - 1) : Int) (segsOf y base start end_ i) = (lmh y i : Int) := by
     intro i a b
     obtain ⟨segs, e1, e2, e3⟩ := month_energy_ok y _ _ i (by omega) (hok i a b)
     rw [emitMonth_segsOf _ _ _ _ _ _ e1]; exact ⟨e1, e2, e3⟩
   refine ⟨_, process_eq y base hlen start end_ hs hs' he (fun i a b => ⟨_, (hm i a b).1⟩), rfl, ?_, ?_⟩
   · obtain ⟨b1, _⟩ := blocks_integral (fun i => ((lmh y i : Int) : Rat)) (segsOf y base start end_)
-      (fun i => (recAt base i).cl - (recAt base i).hl + corr y (recAt base i) (ipfFlag start end_ i) i)
+      (fun i => (recAt base i).cl - (recAt base i).hl)
       start end_ he (fun i a b => (hm i a b).2)
     rw [integral_append]
     simp only [integral, lastHour, sub_self, mul_zero, zero_mul, zero_add, add_zero]
     exact b1
   · obtain ⟨_, b2⟩ := blocks_integral (fun i => ((lmh y i : Int) : Rat)) (segsOf y base start end_)
-      (fun i => (recAt base i).cl - (recAt base i).hl + corr y (recAt base i) (ipfFlag start end_ i) i)
+      (fun i => (recAt base i).cl - (recAt base i).hl)
       start end_ he (fun i a b => (hm i a b).2)
     rw [lastHour_append]
     simp only [lastHour]
